@@ -572,13 +572,13 @@ func init() {
 					for j := i; j < n; j++ {
 						bound := 2
 						if tier != "thorough" {
-							// quick: every pair with at most 1 preemption (two pairs with 2) on the plain mailer;
+							// quick: every pair with at most 1 preemption (three short pairs with 2) on the plain mailer;
 							// three mail-heavy pairs with at most 1 preemption on the SMTP mailer
 							bound = 1
 							if smtp && !(i == 0 && j == 2 || i == 2 && j == 3 || i == 0 && j == 0) {
 								continue
 							}
-							if !smtp && (i == 0 && j == 2 || i == 1 && j == 4) {
+							if !smtp && (i == 1 && j == 4 || i == 1 && j == 1 || i == 4 && j == 4) {
 								bound = 2
 							}
 						}
